@@ -2,3 +2,4 @@
 import AJ.Props.C12
 import AJ.Props.C12Print
 import AJ.Props.SlotCor
+import AJ.Props.C12Gen
